@@ -998,6 +998,71 @@ def inline_private_helpers(idx: Index, fi: FunctionInfo, depth: int = 2, skip: O
     return FunctionInfo(name=fi.name, qualname=fi.qualname, module=fi.module, node=node, cls=fi.cls, decorators=list(fi.decorators))
 
 
+def desugar_shallow_copy(idx: Index, fi: FunctionInfo) -> FunctionInfo:
+    """A copy of method `fi` in which  r = copy.copy(self); r.<attr> = X; …; return r  is written as the constructor call it stands for,
+    `return self.__class__(p=self.p for every constructor parameter p, attr=X)` (statements that only drop cache entries of r are kept out).
+    Lets the rules that judge `self.__class__(…)` calls judge results built by copying self."""
+    cls = fi.cls
+    if cls is None:
+        return fi
+    init = idx.find_method(cls, "__init__")
+    if init is None:
+        return fi
+    kwn = init.node.args.kwarg.arg if init.node.args.kwarg is not None else None
+    params = [p for p in init.params if p not in ("self", kwn)]
+    # a copy also carries what the constructors of the base classes store from **kwargs
+    for c_ in idx.mro(cls):
+        i2 = c_.methods.get("__init__")
+        if i2 is None:
+            continue
+        for st_ in ast.walk(i2.node):
+            if isinstance(st_, ast.Assign):
+                for t_ in st_.targets:
+                    if isinstance(t_, ast.Attribute) and isinstance(t_.value, ast.Name) and t_.value.id == "self" and t_.attr in i2.params and t_.attr not in params:
+                        params.append(t_.attr)
+    node = copy.deepcopy(fi.node)
+    changed = [0]
+
+    def process(body: List[ast.stmt]) -> List[ast.stmt]:
+        for s_ in body:
+            for fld in ("body", "orelse", "finalbody"):
+                v = getattr(s_, fld, None)
+                if isinstance(v, list) and v and isinstance(v[0], ast.stmt):
+                    setattr(s_, fld, process(v))
+        for i, s_ in enumerate(body):
+            if isinstance(s_, ast.Assign) and len(s_.targets) == 1 and isinstance(s_.targets[0], ast.Name) and isinstance(s_.value, ast.Call) \
+                    and call_name(s_.value) in ("copy.copy", "copy") and len(s_.value.args) == 1 and norm(s_.value.args[0]) == "self":
+                r = s_.targets[0].id
+                over: Dict[str, ast.AST] = {}
+                j = i + 1
+                while j < len(body):
+                    t_ = body[j]
+                    if isinstance(t_, ast.Assign) and len(t_.targets) == 1 and isinstance(t_.targets[0], ast.Attribute) and norm(t_.targets[0].value) == r:
+                        over[t_.targets[0].attr] = t_.value
+                    elif isinstance(t_, ast.Expr) and isinstance(t_.value, ast.Call) and norm(t_.value.func).startswith(f"{r}.__dict__.pop"):
+                        pass
+                    elif isinstance(t_, ast.Delete) and all(isinstance(x, ast.Attribute) and norm(x.value) == r for x in t_.targets):
+                        pass
+                    elif isinstance(t_, ast.Assert):
+                        pass
+                    else:
+                        break
+                    j += 1
+                if j < len(body) and isinstance(body[j], ast.Return) and body[j].value is not None and norm(body[j].value) == r and all(a in params for a in over):
+                    kws = [ast.keyword(arg=p_, value=over.get(p_) or ast.Attribute(value=ast.Name(id="self", ctx=ast.Load()), attr=p_, ctx=ast.Load())) for p_ in params]
+                    call = ast.Call(func=ast.Attribute(value=ast.Name(id="self", ctx=ast.Load()), attr="__class__", ctx=ast.Load()), args=[], keywords=kws)
+                    ret = ast.copy_location(ast.Return(value=call), body[j])
+                    ast.fix_missing_locations(ret)
+                    changed[0] += 1
+                    return body[:i] + [ret] + body[j + 1:]
+        return body
+    node.body = process(list(node.body))
+    if not changed[0]:
+        return fi
+    ast.fix_missing_locations(node)
+    return FunctionInfo(name=fi.name, qualname=fi.qualname, module=fi.module, node=node, cls=fi.cls, decorators=list(fi.decorators))
+
+
 def loopify_comprehensions(idx: Index, fi: FunctionInfo) -> FunctionInfo:
     """A copy of `fi` in which `X = [ELT for t in IT]` / `X = {K: V for t in IT}` (one generator, no filter, X a plain name) whose
     element calls a private multi-statement helper is written as the loop it abbreviates (`X = []` + `for t in IT: X.append(ELT)`;
